@@ -972,6 +972,7 @@ class Transaction(object):
         else:
             rawtx.seek(-1, 1)
 
+        pos_inputs = rawtx.tell()
         n_inputs = read_varbyteint(rawtx)
         inputs = []
         for n in range(0, n_inputs):
@@ -989,6 +990,7 @@ class Transaction(object):
             output_total += o.value
         if not outputs:
             raise TransactionError("Error no outputs found in this transaction")
+        pos_witnesses = rawtx.tell()
 
         if witness_type == 'segwit':
             for n in range(0, len(inputs)):
@@ -1049,7 +1051,12 @@ class Transaction(object):
             rawtx.seek(pos_start)
             raw_bytes = rawtx.read(raw_len)
 
-        txid = '' if witness_type == 'segwit' else double_sha256(raw_bytes)[::-1].hex()
+        if witness_type == 'segwit':
+            # Transaction ID is the hash of the raw transaction without marker, flag and witness data (BIP141)
+            txid = double_sha256(raw_bytes[:4] + raw_bytes[pos_inputs - pos_start:pos_witnesses - pos_start] +
+                                 locktime_bytes[::-1])[::-1].hex()
+        else:
+            txid = double_sha256(raw_bytes)[::-1].hex()
 
         return Transaction(inputs, outputs, locktime, version, network, size=raw_len, output_total=output_total,
                            coinbase=coinbase, flag=flag, witness_type=witness_type, rawtx=raw_bytes, index=index,
